@@ -5,7 +5,7 @@
    execution after every action; `no_err err_Cxx m` = the monitor reported no error of this property's class;
    `no_raise ls` = no request ended in an exception. *)
 From Coq Require Import ZArith List Bool.
-From CS Require Ops RevConv RevBridge4 RevolveRun Refuted DiskRun DiskBridge3 HRevRun HRevTop GenLang GenBasic GenLang2 GenTwo GenLang3 GenMulti GenLang4 GenConv GenLang5 GenMixed SeqGenSpec HSeqGenSpec.
+From CS Require Ops RevConv RevBridge4 RevolveRun Refuted DiskRun DiskBridge3 HRevRun HRevTop GenLang GenBasic GenLang2 GenTwo GenLang3 GenMulti GenLang4 GenConv GenLang5 GenMixed SeqGenSpec HSeqGenSpec HoptGenSpec OptInfGenSpec Opt0GenSpec.
 From CS Require Import Actions NAdvance Multistage Exec Sched RunFacts Projections BasicInv MultistageRun AllocTotal TLBridge MixBridge.
 Import ListNotations.
 Open Scope Z_scope.
@@ -232,4 +232,34 @@ Theorem C12_hrevolve_sequence_is_source :
 Proof. exact (@HSeqGenSpec.hrevolve_is_source). Qed.
 Print Assumptions C12_hrevolve_sequence_is_source.
 End M_C12_hrevolve_sequence_is_source.
+
+(* ... and the cost tables of H-Revolve: get_hopt_table rendered by the translator for two storage levels (Gen/HoptGen.v: assignments into opt[k][l][m] / optp[k][l][m] are hset, reads hget, float(inf) is Inf, l * (l + 1) / 2 exact division), proved equal to HRevSeq.get_hopt_table for all arguments *)
+Module M_C12_hopt_table_is_source.
+Import HoptGenSpec.
+Theorem C12_hopt_table_is_source :
+  forall lmax c0 c1 w0 w1 r0 r1 ub uf : Z,
+         hopt_shape lmax c0 c1 w0 w1 r0 r1 ub uf = HRevSeq.get_hopt_table lmax c0 c1 w0 w1 r0 r1 ub uf.
+Proof. exact (@HoptGenSpec.hopt_shape_is_model). Qed.
+Print Assumptions C12_hopt_table_is_source.
+End M_C12_hopt_table_is_source.
+
+(* ... and the Disk-Revolve table: get_opt_inf_table (one_read_disk = True) rendered by the translator (Gen/OptInfGen.v: the Table is a list that only grows by append), proved equal to RevSeq.get_opt_inf_table for all arguments *)
+Module M_C12_optinf_table_is_source.
+Import OptInfGenSpec.
+Theorem C12_optinf_table_is_source :
+  forall (lmax cm uf ub rd wd : Z) (opt_0 : list (list Z)),
+         optinf_shape lmax cm uf ub rd wd opt_0 = RevSeq.get_opt_inf_table lmax cm uf ub rd wd opt_0.
+Proof. exact (@OptInfGenSpec.optinf_shape_is_model). Qed.
+Print Assumptions C12_optinf_table_is_source.
+End M_C12_optinf_table_is_source.
+
+(* ... and the Revolve table: get_opt_0_table rendered by the translator (Gen/Opt0Gen.v: a list of rows that only grow by append), proved equal to RevSeq.get_opt_0_table for every slot count mmax >= 0 *)
+Module M_C12_opt0_table_is_source.
+Import Opt0GenSpec.
+Theorem C12_opt0_table_is_source :
+  forall lmax mmax uf ub : Z,
+         0 <= mmax -> opt0_shape lmax mmax uf ub = RevSeq.get_opt_0_table lmax mmax uf ub.
+Proof. exact (@Opt0GenSpec.opt0_shape_is_model). Qed.
+Print Assumptions C12_opt0_table_is_source.
+End M_C12_opt0_table_is_source.
 
